@@ -30,7 +30,7 @@ REQUIRED_LABELS = {"r:0": 0.15, "r:1": 0.1, "r:2+": 0.05, "basis:custom": 0.1}
 
 
 def budget(tier):
-    n = int(os.environ.get("KV_EXAMPLES", 0)) or (6000 if tier == "quick" else 70000)
+    n = int(os.environ.get("KV_EXAMPLES", 0)) or (15000 if tier == "quick" else 70000)
     return {"examples": n, "shards": 8 if tier == "quick" else 16, "wall": 80 if tier == "quick" else 700}
 
 
@@ -44,7 +44,7 @@ def _cases(draw, dmax):
     cap = None if d <= 4 else ((12 if kind in ("rp", "polarity") else 24) if d <= 6 else 6)
     a = draw(S.operand(d, max_len=cap))
     b = draw(S.operand(d, max_len=cap)) if kind == "rp" else None
-    return {"cfg": cfg, "kind": kind, "a": a, "b": b, "mode": draw(st.sampled_from(["generic", "frac"])),
+    return {"cfg": cfg, "kind": kind, "a": a, "b": b, "mode": draw(st.sampled_from(["generic", "frac", "typed"])),
             "undual": draw(st.booleans())}
 
 
@@ -55,6 +55,8 @@ def cases(tier):
 def _values(opnd, mode, prefix):
     if mode == "generic":
         return [Q.var(f"{prefix}{k}") for k in opnd["keys"]]
+    if mode == "typed" and opnd.get("tvals"):
+        return S.decode_typed(opnd["tvals"])
     return [frac(v) for v in opnd["vals"]]
 
 
